@@ -291,7 +291,7 @@ def validate(work, files, module, props, constants=None, timeout=1800, maxviol=4
         return k, res, time.time() - t0
 
     t0 = time.time()
-    with cf.ThreadPoolExecutor(max_workers=min(NCPU, len(chunks))) as ex:
+    with cf.ThreadPoolExecutor(max_workers=min(max(4, NCPU // 2), len(chunks))) as ex:
         for k, res, dt in ex.map(one, range(len(chunks))):
             path, cmap = chunks[k]
             agg["lines"] += res["lines"]
